@@ -237,39 +237,59 @@ theorem canon_no_grid {rows : List (Nat × Nat)} (h : Canon rows) :
       rcases hr with rfl | rfl | rfl | rfl | rfl | rfl | hr
       all_goals first | exact ih (by simp only [List.length_cons] at he; omega) r hr | simp
 
-/-- the table assembled from the expanded request and the requested column -/
-theorem zip_wanted {rows : List (Nat × Nat)} (h : Canon rows) :
-    ∀ (nas : List Nat), nas.length = rows.length →
-      ((rows.flatMap expandRow).zip (wantedVals (fun v => List.replicate 6 v) rows nas)).map
-        (fun x => (x.1.1, x.1.2, x.2)) = wantedTbl rows nas := by
-  have single : ∀ (i d : Nat) (t : List (Nat × Nat)), d ≤ 6 →
-      (∀ (nas : List Nat), nas.length = t.length →
-        ((t.flatMap expandRow).zip (wantedVals (fun v => List.replicate 6 v) t nas)).map
-          (fun x => (x.1.1, x.1.2, x.2)) = wantedTbl t nas) →
-      ∀ (nas : List Nat), nas.length = ((i, d) :: t).length →
-        ((((i, d) :: t).flatMap expandRow).zip
-          (wantedVals (fun v => List.replicate 6 v) ((i, d) :: t) nas)).map
-          (fun x => (x.1.1, x.1.2, x.2)) = wantedTbl ((i, d) :: t) nas := by
-    intro i d t hd ih nas hl
-    match nas, hl with
-    | v :: vs, hl =>
-        rw [wantedVals_cons, wantedTbl_cons, List.flatMap_cons, expandRow_single i hd,
-          if_neg (by simp; omega), List.zip_append (by simp), List.map_append,
-          ih vs (by simpa using hl), digits_single hd]
-        rfl
-  induction h with
-  | nil => intro nas _; simp [wantedVals, wantedTbl]
-  | spoint i _ ih => exact single i 0 _ (by omega) ih
-  | grid i _ ih =>
-      intro nas hl
-      match nas, hl with
-      | v :: vs, hl =>
-          rw [wantedVals_cons, wantedTbl_cons, List.flatMap_cons, expandRow_grid, if_pos rfl,
-            List.zip_append (by simp), List.map_append, ih vs (by simpa using hl), digits_all]
-          rfl
-  | perdof i _ ih =>
-      exact single i 1 _ (by omega) (single i 2 _ (by omega) (single i 3 _ (by omega)
-        (single i 4 _ (by omega) (single i 5 _ (by omega) (single i 6 _ (by omega) ih)))))
+theorem spreadWords_cons (r : Nat × Nat) (t : List (Nat × Nat)) (v : Nat) (vs : List Nat) :
+    spreadWords (r :: t) (v :: vs) = List.replicate (digits r.2).length v ++ spreadWords t vs := by
+  simp [spreadWords]
+
+theorem zip_replicate_block (i v : Nat) : ∀ (ds : List Nat),
+    ((ds.map fun d => (i, d)).zip (List.replicate ds.length v)).map
+      (fun x => (x.1.1, x.1.2, x.2)) = ds.map fun d => (i, d, v)
+  | [] => rfl
+  | d :: ds => by
+      simp only [List.map_cons, List.length_cons, List.replicate_succ, List.zip_cons_cons,
+        List.cons.injEq, true_and]
+      exact zip_replicate_block i v ds
+
+/-- the table assembled from the expanded request and the spread words: ANY request -/
+theorem zip_spreadWords : ∀ (rows : List (Nat × Nat)) (nas : List Nat), nas.length = rows.length →
+    ((rows.flatMap expandRow).zip (spreadWords rows nas)).map (fun x => (x.1.1, x.1.2, x.2)) =
+      wantedTbl rows nas
+  | [], nas, _ => by simp [spreadWords, wantedTbl]
+  | r :: t, v :: vs, hl => by
+      rw [spreadWords_cons, wantedTbl_cons, List.flatMap_cons,
+        List.zip_append (by simp [expandRow]), List.map_append,
+        zip_spreadWords t vs (by simpa using hl)]
+      congr 1
+      exact zip_replicate_block r.1 v (digits r.2)
+
+theorem digits_length_pos (n : Nat) : 0 < (digits n).length := by
+  have := digitsRev_ne_nil n
+  unfold digits
+  rw [List.length_reverse]
+  exact List.length_pos_iff.mpr this
+
+theorem length_le_expand : ∀ (rows : List (Nat × Nat)), rows.length ≤ (rows.flatMap expandRow).length
+  | [] => by simp
+  | r :: t => by
+      have := length_le_expand t
+      have h1 := digits_length_pos r.2
+      rw [List.flatMap_cons, List.length_append]
+      simp only [expandRow, List.length_map, List.length_cons]
+      omega
+
+/-- the expansion has as many rows as the request: every component list is one digit, and the
+spread words are the given ones -/
+theorem spreadWords_direct : ∀ (rows : List (Nat × Nat)) (nas : List Nat), nas.length = rows.length →
+    (rows.flatMap expandRow).length = rows.length → spreadWords rows nas = nas
+  | [], nas, hl, _ => by simp at hl; subst hl; rfl
+  | r :: t, v :: vs, hl, he => by
+      have h0 := length_le_expand t
+      have h1 := digits_length_pos r.2
+      rw [List.flatMap_cons, List.length_append] at he
+      simp only [expandRow, List.length_map, List.length_cons] at he
+      have hr : (digits r.2).length = 1 := by omega
+      rw [spreadWords_cons, hr, spreadWords_direct t vs (by simpa using hl) (by omega)]
+      rfl
 
 /-- one value for the whole table -/
 theorem zip_scalar (v : Nat) : ∀ (rows : List (Nat × Nat)),
@@ -292,48 +312,99 @@ theorem zip_scalar (v : Nat) : ∀ (rows : List (Nat × Nat)),
             List.cons.injEq, true_and]
           exact ihd
 
-/-- the words column computed for per-row values on a documented request -/
-theorem makeUsetWords_canon {rows : List (Nat × Nat)} (h : Canon rows) (nas : List Nat)
-    (hl : nas.length = rows.length) (hne : ∀ v, nas ≠ [v]) :
-    makeUsetWords (.rows rows) (rows.flatMap expandRow) nas =
-      .ok (wantedVals (fun v => List.replicate 6 v) rows nas) := by
-  have hbody : (if (rows.flatMap expandRow).length = nrows (.rows rows) then Except.ok nas
-      else do
-        let w ← spread (rows2 (.rows rows)).length (rows2 (.rows rows)) nas
-        Except.ok (w ++ List.replicate ((rows.flatMap expandRow).length - w.length) 0)) =
-      .ok (wantedVals (fun v => List.replicate 6 v) rows nas) := by
-    show (if (rows.flatMap expandRow).length = rows.length then Except.ok nas
-      else do
-        let w ← spread rows.length rows nas
-        Except.ok (w ++ List.replicate ((rows.flatMap expandRow).length - w.length) 0)) = _
-    by_cases he : (rows.flatMap expandRow).length = rows.length
-    · rw [if_pos he, wantedVals_direct _ rows nas (canon_no_grid h he) hl]
-    · rw [if_neg he]
-      unfold spread
-      rw [spreadG_canon _ h _ nas hl (Nat.le_refl _)]
-      simp only [bind, Except.bind]
-      rw [wantedVals_length _ (by simp) h nas hl]
-      simp
-  unfold makeUsetWords
-  split
-  · rename_i v
-    exact absurd rfl (hne v)
-  · exact hbody
+/-- what `makeUsetDof` returns is the expansion of the request -/
+theorem makeUsetDof_ok {rows edof : List (Nat × Nat)} (h : makeUsetDof (.rows rows) = .ok edof) :
+    edof = rows.flatMap expandRow := by
+  unfold makeUsetDof at h
+  simp only [expanddof] at h
+  cases he : expanddof2 rows with
+  | error e => rw [he] at h; cases h
+  | ok e =>
+      rw [he] at h
+      simp only [bind, Except.bind] at h
+      split at h
+      · cases h
+      · cases h
+        unfold expanddof2 at he
+        simp only at he
+        split at he
+        · cases he
+        · cases he; rfl
+
+/-- FULL strength: whatever request `make_uset` accepts, every DOF named by a request row carries
+that row's set word (one word per row), or the single word -/
+theorem makeUset_sets {rows : List (Nat × Nat)} {nas : List Nat} {tbl : List Row}
+    (h : makeUset (.rows rows) nas = .ok tbl) :
+    (nas.length = rows.length → tbl = wantedTbl rows nas) ∧
+    (∀ v, nas = [v] → tbl = wantedTbl rows (List.replicate rows.length v)) := by
+  unfold makeUset at h
+  split at h
+  · cases h
+  · cases hd : makeUsetDof (.rows rows) with
+    | error e => rw [hd] at h; cases h
+    | ok edof =>
+        rw [hd] at h
+        have hed := makeUsetDof_ok hd
+        simp only [bind, Except.bind] at h
+        have hscalar : ∀ v, nas = [v] → tbl = wantedTbl rows (List.replicate rows.length v) := by
+          intro v hv
+          subst hv
+          simp only [makeUsetWords, Except.ok.injEq] at h
+          rw [← h, hed]
+          exact zip_scalar v rows
+        refine ⟨fun hl => ?_, hscalar⟩
+        by_cases hv : ∃ v, nas = [v]
+        · obtain ⟨v, hv⟩ := hv
+          have := hscalar v hv
+          rw [this]
+          subst hv
+          have h1 : rows.length = 1 := by simpa using hl.symm
+          rw [h1]; rfl
+        · have hw : makeUsetWords (.rows rows) edof nas = .ok (spreadWords rows nas) := by
+            unfold makeUsetWords
+            split
+            · exact absurd ⟨_, rfl⟩ hv
+            · show (if edof.length = rows.length then Except.ok nas
+                else Except.ok (spreadWords rows nas)) = _
+              by_cases he : edof.length = rows.length
+              · rw [if_pos he, spreadWords_direct rows nas hl (by rw [← hed]; exact he)]
+              · rw [if_neg he]
+          rw [hw] at h
+          simp only [Except.ok.injEq] at h
+          rw [← h, hed]
+          exact zip_spreadWords rows nas hl
+
+/-- `make_uset` succeeds exactly when the length of `nasset` is 1 or the number of request rows and
+the expanded request passes the check "each GRID must have all DOF 1-6" -/
+theorem makeUset_ok_iff (rows : List (Nat × Nat)) (nas : List Nat) :
+    (∃ tbl, makeUset (.rows rows) nas = .ok tbl) ↔
+      (nas.length = 1 ∨ nas.length = rows.length) ∧ ∃ edof, makeUsetDof (.rows rows) = .ok edof := by
+  unfold makeUset
+  constructor
+  · rintro ⟨tbl, h⟩
+    split at h
+    · cases h
+    · rename_i hc
+      refine ⟨by simp only [nrows] at hc; omega, ?_⟩
+      cases hd : makeUsetDof (.rows rows) with
+      | error e => rw [hd] at h; cases h
+      | ok edof => exact ⟨edof, rfl⟩
+  · rintro ⟨hl, edof, hd⟩
+    rw [if_neg (by simp only [nrows]; omega), hd]
+    simp only [bind, Except.bind]
+    have : ∃ w, makeUsetWords (.rows rows) edof nas = .ok w := by
+      unfold makeUsetWords
+      split
+      · exact ⟨_, rfl⟩
+      · split <;> exact ⟨_, rfl⟩
+    obtain ⟨w, hw⟩ := this
+    rw [hw]
+    exact ⟨_, rfl⟩
 
 theorem makeUset_canon {rows : List (Nat × Nat)} (h : Canon rows) (nas : List Nat)
     (hl : nas.length = rows.length) : makeUset (.rows rows) nas = .ok (wantedTbl rows nas) := by
-  unfold makeUset
-  rw [if_neg (by simp [nrows, hl]), makeUsetDof_canon h]
-  simp only [bind, Except.bind]
-  by_cases hv : ∃ v, nas = [v]
-  · obtain ⟨v, rfl⟩ := hv
-    simp only [makeUsetWords]
-    have := zip_scalar v rows
-    rw [← hl] at this
-    simpa using this
-  · rw [makeUsetWords_canon h nas hl (fun v hv' => hv ⟨v, hv'⟩)]
-    simp only
-    rw [zip_wanted h nas hl]
+  obtain ⟨tbl, ht⟩ := (makeUset_ok_iff rows nas).mpr ⟨Or.inr hl, _, makeUsetDof_canon h⟩
+  rw [ht, (makeUset_sets ht).1 hl]
 
 /-- the coordinate columns on a documented request: a `123456` row gives the location row and
 the five rows of the basic system, every other row its own `xyz` row; no row stays unset -/
